@@ -616,6 +616,14 @@ def main():
         summary['untranslated']['monitors'] = str(e)
         with open(os.path.join(a.lean, 'Monitors.lean'), 'w') as f:
             f.write(monitors.lean_text({}))
+    try:
+        gs = monitors.guards(a.ast)
+        summary['guards'] = [[g[0], g[2], g[3]] for g in gs]
+    except (monitors.Unsupported, KeyError, IndexError) as e:
+        summary['untranslated']['guards'] = str(e)
+        gs = []
+    with open(os.path.join(a.lean, 'Guards.lean'), 'w') as f:
+        f.write(monitors.lean_guards_text(gs))
     json.dump(summary, open(a.json, 'w'), indent=1)
     print('translated %d classes (%d with regular layout hint, %d irregular), %d untranslated' % (
         len(built), len(summary['regular']), len(summary['irregular']), len(summary['untranslated'])))
